@@ -30,12 +30,15 @@
 #include <math.h>
 #include <time.h>
 
+#include <algorithm>
 #include <functional>
+#include <map>
 #include <set>
 #include <stdexcept>
 
 #include "JSON.hh"
 #include "common.hh"
+#include "vf_history.hh"
 
 using namespace std;
 using namespace phosg;
@@ -1543,6 +1546,212 @@ static void run_sizes(vf::Ctx& c, uint64_t& idx) {
   c.count(fmt("size_longest_text_shard%02u", c.shard), longest_text);
 }
 
+// ------------------------------------------------------------------------------------------------
+// prior history: serialize() formats numbers and escapes through phosg's shared printf helpers.  What those return may
+// depend on what the SAME THREAD formatted earlier (a scratch buffer that only grows, an exact-fit test, trimming), and the
+// main workload's thread formats long texts early and stays in one region of that hidden state.  This part runs, on a FRESH
+// thread right after exactly one earlier unrelated use of the helpers (vf::priors()), a ladder of leaf values and small
+// containers whose serialised texts cover every length a number / constant / escape / small document can have under every
+// number-affecting option - first in INCREASING order of text length (a state that only grows passes through every size
+// with a candidate of exactly that length), then, on another fresh thread, in DECREASING order.  Oracle: the same run_one().
+
+struct PriorCase {
+  size_t atom;
+  uint32_t o;
+  size_t textlen;
+  string cls;
+};
+
+static vector<Node> prior_atoms() {
+  vector<Node> v;
+  // integers: every decimal digit count 1..19 and every hex digit count 1..16 (lowest, highest and a mixed-digit value), both signs
+  vector<int64_t> ints;
+  {
+    set<int64_t> seen;
+    auto add1 = [&](int64_t x) {
+      if (seen.insert(x).second) ints.push_back(x);
+    };
+    auto addpm = [&](uint64_t a) {
+      if (a <= (uint64_t)INT64_MAX) add1((int64_t)a);
+      if (a <= (uint64_t)1 << 63) add1((int64_t)((uint64_t)0 - a));
+    };
+    add1(0);
+    uint64_t p = 1;
+    for (int d = 1; d <= 19; d++) {
+      addpm(p);
+      addpm(strtoull(string("1234567890123456789").substr(0, d).c_str(), nullptr, 10));
+      if (d < 19) {
+        addpm(p * 10 - 1);
+        p *= 10;
+      }
+    }
+    for (int h = 1; h <= 16; h++) {
+      addpm((uint64_t)1 << (4 * (h - 1)));
+      addpm(h == 16 ? ~(uint64_t)0 : (((uint64_t)1 << (4 * h)) - 1));
+      addpm((h & 1 ? 0xFEDCBA9876543210ULL : 0x7A5C3E1F9B2D4680ULL) >> (4 * (16 - h)));
+    }
+    addpm((uint64_t)INT64_MAX);
+    addpm((uint64_t)1 << 63);
+  }
+  for (int64_t x : ints) v.push_back(mk_int(x));
+  // floats: up to two per (shape of the %g text, length of the %g text)
+  vector<double> floats;
+  {
+    vector<double> pool = {0.0, -0.0, 0.5, 0.25, 0.125, 12.5, 123.25, 1234.5, 12345.5, 0.0001, 0.00012345, 0.001, 0.015, 1, 10, 100, 1000, 10000, 100000,
+        123456, 999999, 12, 123, 1234, 12345};
+    static const char* mant[] = {"1", "2", "5", "9", "1.5", "2.5", "1.25", "9.75", "1.234", "1.2345", "1.23456", "9.99999", "1.23457"};
+    static const int exps[] = {-300, -100, -10, -7, -5, -4, -3, -1, 0, 1, 2, 3, 4, 5, 6, 7, 10, 15, 20, 100, 300};
+    for (const char* m : mant)
+      for (int e : exps) pool.push_back(from_text(string(m) + "e" + to_string(e)));
+    map<string, int> taken;
+    for (int neg = 0; neg < 2; neg++)
+      for (double f0 : pool) {
+        double f = neg ? -f0 : f0;
+        if (!usable(f)) continue;
+        char b[64];
+        int len = snprintf(b, sizeof(b), "%g", f);
+        if (taken[float_shape(f) + fmt(":%d", len)]++ < 2) floats.push_back(f);
+      }
+  }
+  for (double f : floats) v.push_back(mk_float(f));
+  // trivial constants
+  v.push_back(mk_null());
+  v.push_back(mk_bool(true));
+  v.push_back(mk_bool(false));
+  // strings: plain ASCII of every length 0..22 (text of 2..24 characters), and short ones that need escapes
+  for (size_t n = 0; n <= 22; n++) v.push_back(mk_str(string("abcdefghijklmnopqrstuvwxyz").substr(0, n)));
+  vector<string> esc;
+  for (int b : {0x01, 0x1f, 0x7f, 0x80, 0xff, 0x00, 0x0b}) {
+    string c1(1, (char)b);
+    for (const string& s : {c1, "a" + c1, c1 + c1, c1 + "z" + c1 + c1, "\n" + c1 + "\"", c1 + c1 + c1 + c1}) esc.push_back(s);
+  }
+  for (auto& s : esc) v.push_back(mk_str(s));
+  // small containers over the leaves above
+  size_t leaves = v.size();
+  for (size_t i = 0; i < leaves; i += 13) {
+    Node l = mk_list();
+    l.kids.push_back(v[i]);
+    v.push_back(l);
+    Node d = mk_dict();
+    dput(d, esc[(i / 13) % esc.size()], v[(i * 7 + 3) % leaves]);
+    v.push_back(d);
+  }
+  for (size_t i = 2; i + 2 < leaves; i += 23) {
+    Node l = mk_list(), d = mk_dict(), in = mk_list();
+    l.kids = {v[i], v[(i * 3 + 1) % leaves], v[(i * 11 + 2) % leaves]};
+    in.kids = {v[i + 1]};
+    dput(d, "a", in);
+    dput(d, esc[i % esc.size()] + "k", v[i + 2]);
+    dput(d, "", l);
+    v.push_back(l);
+    v.push_back(d);
+  }
+  for (size_t n = 1; n <= 12; n++) {  // "[1,2,...]": text of 3, 5, ... 25 characters
+    Node l = mk_list();
+    for (size_t i = 0; i < n; i++) l.kids.push_back(mk_int((int64_t)((i + n) % 10)));
+    v.push_back(l);
+  }
+  {
+    Node l = mk_list(), d = mk_dict();
+    l.kids = {mk_null(), mk_bool(true), mk_bool(false)};
+    dput(d, "n", mk_null());
+    dput(d, "t", mk_bool(true));
+    dput(d, "f", mk_bool(false));
+    v.push_back(l);
+    v.push_back(d);
+    v.push_back(mk_list());
+    v.push_back(mk_dict());
+  }
+  return v;
+}
+
+static void run_prior_history(vf::Ctx& c, uint64_t& idx) {
+  const vector<Node> atoms = prior_atoms();
+  vector<string> tags(atoms.size());
+  vector<char> fls(atoms.size());
+  for (size_t a = 0; a < atoms.size(); a++) {
+    tagged(atoms[a], tags[a]);
+    fls[a] = has_float(atoms[a]);
+  }
+  // plan: (atom, mask) cases ordered by the length of the serialised text (measured here, on the main thread; this is
+  // workload ordering only, nothing is judged with it)
+  vector<PriorCase> plan;
+  // masks: a leaf gets the options that change its text (plus none, all, and for floats a rotating one); containers get each
+  // option alone, the standard FORMAT|SORT_DICT_KEYS, all, and a rotating one
+  for (size_t a = 0; a < atoms.size(); a++) {
+    const Node& n = atoms[a];
+    set<uint32_t> masks = {0, 0x3f};
+    switch (n.k) {
+      case Node::I: masks.insert(JSON::HEX_INTEGERS); break;
+      case Node::F: masks.insert((uint32_t)((a * 37 + 11) & 63)); break;
+      case Node::N: case Node::B: masks.insert(JSON::ONE_CHARACTER_TRIVIAL_CONSTANTS); break;
+      case Node::S: masks.insert(JSON::HEX_ESCAPE_CODES); masks.insert(JSON::ESCAPE_CONTROLS_ONLY); break;
+      default:
+        masks.insert({JSON::HEX_INTEGERS, JSON::ONE_CHARACTER_TRIVIAL_CONSTANTS, JSON::FORMAT | JSON::SORT_DICT_KEYS, (uint32_t)((a * 37 + 11) & 63)});
+        masks.insert((a & 1) ? JSON::HEX_ESCAPE_CODES : JSON::ESCAPE_CONTROLS_ONLY);
+        break;
+    }
+    JSON v = build(n);
+    for (uint32_t o : masks) {
+      PriorCase pc{a, o, ser(v, o).size(), ""};
+      size_t L = pc.textlen;
+      switch (n.k) {
+        case Node::I: pc.cls = fmt("prior:textlen:int-%s:%zu", (o & JSON::HEX_INTEGERS) ? "hex" : "dec", L); break;
+        case Node::F: pc.cls = "prior:textlen:float:" + float_shape(n.f) + fmt(":%zu", L); break;
+        case Node::N: case Node::B: pc.cls = fmt("prior:textlen:trivial:%zu", L); break;
+        case Node::S: pc.cls = "prior:textlen:string:" + str_class(n.s) + (str_class(n.s) == "ascii" || n.s.empty() ? fmt(":%zu", L) : string()); break;
+        default: pc.cls = fmt("prior:textlen:document:%zu", L < 33 ? L : (size_t)33); break;
+      }
+      plan.push_back(std::move(pc));
+    }
+  }
+  std::stable_sort(plan.begin(), plan.end(), [](const PriorCase& x, const PriorCase& y) { return x.textlen < y.textlen; });
+  c.count("prior_history_atoms", c.shard == 0 ? atoms.size() : 0);
+  c.count("prior_history_cases_per_thread", c.shard == 0 ? plan.size() : 0);
+
+  for (int descending = 0; descending < 2; descending++) {
+    const char* order = descending ? "decreasing" : "increasing";
+    auto mini = [&](const vf::Prior& p) {
+      for (size_t k = 0; k < plan.size(); k++) {
+        const PriorCase& pc = plan[descending ? plan.size() - 1 - k : k];
+        const Node& n = atoms[pc.atom];
+        uint32_t o = pc.o;
+        uint64_t i = idx++;
+        c.crumb_s(fmt("prior-history: fresh thread, prior=%s, %s text length, case %zu: serialize opts=0x%02x tagged=", p.name.c_str(), order, k, o) + tags[pc.atom]);
+        JSON v = build(n);
+        string t = ser(v, o);
+        bool std_o = is_std(o);
+        if (std_o && dumpf && !descending) {  // CPython comparison: the increasing pass is enough
+          fprintf(dumpf, "T\t%" PRIu64 "\t%s\tprior-history\n", i, tags[pc.atom].c_str());
+          string hx = vf::hex(t);
+          fprintf(dumpf, "X\t%" PRIu64 "\t%u\t%s\n", i, o, hx.c_str());
+        }
+        for (int strict = 0; strict <= (std_o ? 1 : 0); strict++) {
+          c.evaluations++;
+          Outcome oc = run_one(n, v, o, strict, fls[pc.atom], &t);
+          if (oc.check.empty()) continue;
+          string ks, note;
+          Node b = blame(n, o, strict, ks, note);
+          string bt;
+          tagged(b, bt);
+          c.violation("prior-history:" + p.family + ":" + oc.check + ":" + ks + ":" + (strict ? "strict" : "default"),
+              oc.check + " (" + oc.detail + ") with options " + opt_names(o) + (strict ? ", strict parser" : ", default parser") +
+                  " on a thread whose only earlier use of phosg was: " + p.name,
+              fmt("fresh thread; prior %s; then the prior-history ladder in %s order of text length up to case %zu of %zu (every earlier text on this thread had %s %zu characters); ",
+                  p.name.c_str(), order, k, plan.size(), descending ? "at least" : "at most", pc.textlen) +
+                  "value " + tags[pc.atom] + " serialises to hex " + vf::hex(t.substr(0, 200)) + " = \"" + t.substr(0, 200) + "\"; smallest failing value " + bt);
+        }
+        c.cls(pc.cls);
+      }
+      c.cls(string("prior:order:") + order);
+      c.cls("prior:family:" + p.family);
+    };
+    size_t threads = vf::for_each_prior(c, mini, c.nshards, c.shard, c.qt((size_t)2, (size_t)12));
+    c.count(string("prior_history_threads_") + order, threads);
+  }
+  if (c.shard == 0) c.sample(fmt("prior-history: %zu (value, mask) cases per fresh thread, text lengths %zu..%zu, after each of %zu priors", plan.size(), plan.front().textlen, plan.back().textlen, vf::priors().size()), 9);
+}
+
 int main(int argc, char** argv) {
   vf::Ctx& c = vf::init(argc, argv);
   C = &c;
@@ -1556,6 +1765,12 @@ int main(int argc, char** argv) {
     }
   }
   uint64_t idx = 0;
+  string only = c.arg("only", "");  // debugging aid: only=prior-history runs that part alone
+  if (only == "prior-history") {
+    run_prior_history(c, idx);
+    if (dumpf) fclose(dumpf);
+    return c.finish();
+  }
   vector<Node> sys = systematic();
   for (auto& n : sys) {
     uint64_t i = idx++;
@@ -1578,6 +1793,7 @@ int main(int argc, char** argv) {
   }
   c.count("random_trees_nodes", nodes);
   if (c.arg("sizes", "1") != "0") run_sizes(c, idx);
+  if (c.arg("priors", "1") != "0") run_prior_history(c, idx);
   if (dumpf) fclose(dumpf);
   return c.finish();
 }
